@@ -1490,7 +1490,9 @@ func (p *point) name() []byte {
 }
 
 func (p *point) Name() []byte {
-	return escape.Unescape(p.name())
+	// Only ',' and ' ' are escaped in a measurement (see EscapeMeasurement and ParseKeyBytes):
+	// the name must be the one the series key and the index carry.
+	return unescapeMeasurement(p.name())
 }
 
 // SetName updates the measurement name for the point.
